@@ -506,12 +506,18 @@ func c35Judge(what string, outs []c35Outcome, res *vpReadResult) error {
 	return fmt.Errorf("%s: body reads returned %d octets %.60x then %v (%T); allowed: %v", what, len(res.data), res.data, res.err, res.err, allowed)
 }
 
+// c35Same is the chunking-independence relation: same kind of end, and the same body
+// when the message ends cleanly (before an error the implementation may drop octets it
+// had buffered, and how many depends on how the stream data arrived).
 func c35Same(a, b *vpReadResult) bool {
-	if !bytes.Equal(a.data, b.data) {
+	ea, eb := errors.Is(a.err, io.EOF), errors.Is(b.err, io.EOF)
+	if ea != eb || (a.err == nil) != (b.err == nil) {
 		return false
 	}
-	ea, eb := errors.Is(a.err, io.EOF), errors.Is(b.err, io.EOF)
-	return ea == eb && (a.err == nil) == (b.err == nil)
+	if ea {
+		return bytes.Equal(a.data, b.data)
+	}
+	return errors.Is(a.err, errH3FrameError) == errors.Is(b.err, errH3FrameError)
 }
 
 func c35Run(t *testing.T, c c35Case, r *vp.Rec) error {
